@@ -5,4 +5,5 @@ def main (args : List String) : IO UInt32 := do
   match args with
   | ["fifo"] => Fifo.Drv.main; return 0
   | ["tee"] => Tee.Drv.main; return 0
+  | ["tee-legacy"] => Tee.Drv.mainLegacy; return 0
   | _ => IO.eprintln s!"usage: drv <model>   (models: fifo)"; return 2
